@@ -3,6 +3,7 @@ package main
 import (
 	"encoding/json"
 	"fmt"
+	"os"
 	"sort"
 	"strings"
 	"sync"
@@ -20,6 +21,7 @@ var plans = map[string]plan{}
 func init() {
 	plans["C10"] = pipesimPlan("C10")
 	plans["C11"] = pipesimPlan("C11")
+	plans["C07"] = snapsimPlan()
 }
 
 func runTimed(c *checker, ph phase) ([]workerOutcome, bool) {
@@ -206,4 +208,118 @@ func keysOf(m map[string]phase) string {
 	}
 	sort.Strings(k)
 	return strings.Join(k, ",")
+}
+
+// ------------------------------------------------------------------------------------
+// snapsim: C07
+
+func snapsimPhases(tier string) map[string]phase {
+	q := tier == "quick"
+	sel := func(a, b float64) float64 {
+		if q {
+			return a
+		}
+		return b
+	}
+	m := map[string]phase{}
+	m["explore"] = phase{Name: "explore", Build: "snapsim", TestRun: "^TestVerifSnapsim$", Engine: "snapsim", Mode: "explore",
+		BudgetS: sel(30, 600), Workers: 16, Samples: 3}
+	per := uint64(1500)
+	if !q {
+		per = 40000
+	}
+	m["reference-digests"] = phase{Name: "reference-digests", Build: "snapsim", TestRun: "^TestVerifSnapsim$", Engine: "snapsim", Mode: "digests",
+		Workers: 16, MaxSeeds: per, Extra: map[string]string{"order": "sorted", "role": "reference"}}
+	m["process-repetition"] = phase{Name: "process-repetition", Build: "snapsim-plain", TestRun: "^TestVerifSnapsim$", Engine: "snapsim-plain", Mode: "digests",
+		Workers: 16, MaxSeeds: per, Extra: map[string]string{"repeat": "3", "role": "compare"}}
+	return m
+}
+
+func snapsimPlan() plan {
+	return plan{
+		builds: func(tier string) []string { return []string{"snapsim", "snapsim-plain"} },
+		phase: func(name, tier string) (phase, bool) {
+			if name == "fidelity" {
+				return phase{Name: "fidelity"}, true
+			}
+			p, ok := snapsimPhases(tier)[name]
+			return p, ok
+		},
+		run: func(c *checker) int {
+			phs := snapsimPhases(c.tier)
+			agg := newAggregate()
+			rule := "one evaluation = one generated (polygon, tile matrix set, id list, flags) snapped under the canonical sorted map-iteration order and then under " +
+				"4 (quick) / 12 (thorough) other exact iteration orders at every map site with the id list permuted (oracle 1), with a subset of input rings reversed " +
+				"(oracle 3, valid polygons) and with the reverse-winding flag flipped (oracle 4, valid polygons); a separate phase compares result digests of the instrumented " +
+				"library with the un-instrumented library in fresh processes, three repetitions each (oracle 2). Non-trivial = at least one map with two or more keys was " +
+				"handed out in a non-sorted order during the evaluation (an effective permutation). Distinct = distinct inputs (hash of the generated input) among non-trivial evaluations."
+			assumptions := []string{
+				"sampling, not proof",
+				"every order the seam produces is a legal Go execution (the language leaves map iteration order unspecified); map iteration inside third-party packages (orderedmap, sortedmap, go-spatial) is not behind the seam and is covered only by the process-repetition phase",
+				"ring-direction and reverse-flag oracles are evaluated on polygons that are valid by construction and re-validated with exact integer arithmetic on the generation lattice; ring comparison there is up to rotation of the ring",
+				"a panic of SnapPolygon is not a C07 matter; it is only required to occur under every order alike",
+			}
+			components := map[string][]string{
+				"real": {"snap.SnapPolygon and everything below it (pointindex, morton, intgeom, geomhelp, mapslicehelp, tms20)"},
+				"stub": {"none (the map-iteration order at the module's own range statements is decided by the simulator; the plain build runs with Go's own randomisation)"},
+			}
+			finish := func(code int) int {
+				c.writeEvidence(agg, rule, assumptions, components)
+				return code
+			}
+			// instrumentation fidelity doubles as a C07 oracle: the repo's own tests must not
+			// depend on the iteration order either
+			for pol, res := range c.rc.info.Fidelity {
+				if strings.HasPrefix(res, "FAIL") {
+					class := "determinism/repo-test-under-map-order"
+					if c.isKnown(class) {
+						c.knownSeen[class]++
+						continue
+					}
+					doc := map[string]interface{}{"property": "C07", "engine": "fidelity", "replay_phase": "fidelity", "policy": pol,
+						"violation": map[string]interface{}{"class": class, "message": "the repository's own test suite fails inside the instrumented copy when maps are iterated in order " + pol + ":\n" + tail(res, 3000)}}
+					path, err := writeReplay("C07", encodeGeneric(doc), "repo-tests-"+sanitize(pol))
+					if err != nil {
+						die2("%v", err)
+					}
+					fmt.Printf("violation class: %s\n%s\n", class, tail(res, 3000))
+					fmt.Printf("VIOLATION property=C07 replay=%s\n", path)
+					c.violation, c.violClass = path, class
+					return finish(1)
+				}
+			}
+			outs, bad := runTimed(c, phs["explore"])
+			agg.add(outs)
+			if bad {
+				return finish(1)
+			}
+			refDir := c.rc.scratch + "/refdigests"
+			os.MkdirAll(refDir, 0o755)
+			for _, name := range []string{"reference-digests", "process-repetition"} {
+				ph := phs[name]
+				ph.Extra["ref_dir"] = refDir
+				ph.SeedOffset = 700_000_000
+				reps := 1
+				if name == "process-repetition" && c.tier == "thorough" {
+					reps = 3 // three generations of fresh processes
+				}
+				for r := 0; r < reps; r++ {
+					outs, bad := runTimed(c, ph)
+					if bad {
+						return finish(1)
+					}
+					var n int64
+					for _, o := range outs {
+						if o.Summary != nil {
+							n += o.Summary.Runs
+						}
+					}
+					if name == "process-repetition" {
+						agg.Oracles["oracle2-process-repetition-inputs-compared"] += n
+					}
+				}
+			}
+			return finish(0)
+		},
+	}
 }
